@@ -81,6 +81,7 @@ type State struct {
 	// names: the source-level variables as of this point of this path (set when
 	// the defining phi / allocation / debug reference is executed)
 	names map[string]nameBind
+	pendingTrig [][2]string // witness terms met while instantiating (registered afterwards, depth-limited)
 }
 
 // nameBind: the current value of a source variable, or (cell) a pointer to the
